@@ -660,6 +660,8 @@ func TestCheck(t *testing.T) {
 		for k := 0; k < 7; k++ {
 			bodies = append(bodies, validPacket(brng, true))
 		}
+		// large answers (16 KiB and 64 KiB of small records): more than one read of the HTTP body
+		bodies = append(bodies, bigInput(brng, 6*len(bigSizes)+2), bigInput(brng, 6*len(bigSizes)+3), bigInput(brng, 6*len(bigSizes)+1))
 		dohFraming(r, bodies)
 	}
 	r.Extra("max_alloc_over_budget_ppm", maxFrac.Load())
